@@ -748,9 +748,9 @@ class ExprMixin:
             raise Unsupported('nested comprehension')
         g = node.generators[0]
         src = self.ev(g.iter)
-        hook = getattr(self, 'comprehension_hook', None)
+        hook = self.spec.notes.get('comprehension_hook')
         if hook is not None:
-            r = hook(node, src)
+            r = hook(self, node, src)
             if r is not None:
                 return r
         raise Unsupported('comprehension over %s' % src.t)
